@@ -95,7 +95,10 @@ impl Closure {
                 }
             }
         }
-        assert!(nbind <= 1, "oracle supports at most one binder argument per node");
+        // several binder arguments in one node (`case(s, x. a, y. b)`) are instantiated with the SAME fresh pool names:
+        // "bodies related for some name fresh for both nodes" is equivalent to "for every such name" (the relation is
+        // invariant under permutations of the pool), so one shared choice per node decides all binder arguments at once
+        let _ = nbind;
         let op = self.op_id(t.op);
         let id = self.skels.len();
         self.skels.push(Skel { op, k: names.len(), args });
@@ -274,7 +277,7 @@ impl Closure {
             for vi in 0..self.valid.len() {
                 let (si, g, asg) = self.valid[vi];
                 let sk = self.skels[si].clone();
-                let nb = sk.args.iter().find_map(|a| if let SArg::Bind { nb, .. } = a { Some(*nb) } else { None }).unwrap_or(0);
+                let nb = sk.args.iter().filter_map(|a| if let SArg::Bind { nb, .. } = a { Some(*nb) } else { None }).max().unwrap_or(0);
                 // enumerate fresh-name tuples for the binder
                 let mut ztuples: Vec<[u8; 2]> = Vec::new();
                 if nb == 0 {
